@@ -87,6 +87,9 @@ var streamProtos = []string{peerproto.SimPeerInfo, peerproto.SimPeerVersion, dlO
 func (crashEngine) Generate(prop string, r *simrt.RNG, tier string, run int) *simrt.Scenario {
 	sc := &simrt.Scenario{Knobs: map[string]int64{}}
 	sc.Knobs["timeout_ms"] = []int64{0, 400, 800}[r.Intn(3)]
+	if r.Chance(1, 6) && os.Getenv("VERIF_RACE") != "1" {
+		sc.Knobs["second_offence"] = 1
+	}
 	if r.Chance(1, 12) {
 		// broadcast.disableValidation=true (documented for consortium / private
 		// chains): no topic validators, no validator bookkeeping
@@ -1296,6 +1299,52 @@ func (w *c33World) probes() *simrt.Violation {
 		return w.dead("manageDeniedPeer", "a peer whose block was rejected by blockchain is not shielded after %v", c33ProbeWait)
 	}
 	ctx.Probe("probe-validator")
+	// P8: the same publisher after its shielding has run out: several accepted
+	// blocks, then a rejected one again (the bookkeeping counts both ways). Two
+	// virtual hours of ticker events are costly: one run in six.
+	if ctx.Sc.Knob("second_offence", 0) != 1 {
+		return check()
+	}
+	wait := 2*time.Hour + time.Minute
+	time.Sleep(wait)
+	ctx.AddSimTime(wait)
+	simrt.Settle()
+	if n.bsim.Denied(bad) {
+		ctx.Probe("probe-still-shielded-after-2h")
+		return check()
+	}
+	n.bc.mu.Lock()
+	n.bc.replyErr = ""
+	n.bc.mu.Unlock()
+	for k := int64(0); k < 4; k++ {
+		if k == 3 {
+			n.bc.mu.Lock()
+			n.bc.replyErr = "ErrBlockHashNoMatch"
+			n.bc.mu.Unlock()
+		}
+		bk := n.makeBlock(w.local+1003+k, base+3+k, []*txUnit{unit(6 + k)})
+		hask := postedHas(bk)
+		resk := w.deliver(broadcast.SimTopicBlock, n.bsim.Encode(bk), bad, bad)
+		if !w.waitFor(c33ProbeWait, hask) {
+			if v := check(); v != nil {
+				return v
+			}
+			return w.dead("fullblock-receive-after-shielding", "a well-formed full block (height %d) from a peer whose shielding has run out was not handed to blockchain within %v (topic validator result %d)", bk.Height, c33ProbeWait, resk)
+		}
+		time.Sleep(2500 * time.Millisecond) // the reply is collected by the 2 s bookkeeping tick
+		ctx.AddSimTime(2500 * time.Millisecond)
+		simrt.Settle()
+		if v := check(); v != nil {
+			return v
+		}
+	}
+	if !w.waitFor(c33ProbeWait, func() bool { return n.bsim.Denied(bad) }) {
+		if v := check(); v != nil {
+			return v
+		}
+		return w.dead("manageDeniedPeer-second-offence", "a peer whose block was rejected again (after three accepted ones) is not shielded after %v", c33ProbeWait)
+	}
+	ctx.Probe("probe-validator-second-offence")
 	return check()
 }
 
